@@ -1,6 +1,356 @@
-//! C01 — not built yet.
-use vcommon::Args;
+//! C01 — D-Bus encoding is byte-exact with the specification.
+//!
+//! Space: every single complete D-Bus type with ≤ N signature nodes (`rv::all_types`), every value
+//! of `rv::values` (small leaf domains, base-choice above the cap — reported), both byte orders,
+//! start offsets 0..7 (quick) / 0..15 (thorough), four encode routes of the real zvariant
+//! (`dyn`, `variant`, `serde`, `typed` — see zvx.rs).
+//! Oracle (only what the statement says): bytes == reference marshaller (`refdbus::encode`);
+//! `serialized_size` == number of bytes written; number of fds reported by `serialized_size` ==
+//! number of fds attached by `to_bytes`, and every `h` on the wire indexes an attached fd that is
+//! the original file.
 
-pub fn main(_args: &Args) -> i32 {
-    vcommon::machinery_failure("C01: check not built yet")
+use serde_json::json;
+use vcommon::{hex, Args, Report, Violation};
+
+use crate::{
+    refdbus,
+    rv::{self, Ty, RV},
+    zvx::{self, Acc},
+};
+
+const CAP: usize = 64;
+
+fn kind(ty: &Ty) -> &'static str {
+    match ty {
+        Ty::Array(_) => "array",
+        Ty::Dict(..) => "dict",
+        Ty::Struct(_) => "struct",
+        Ty::V => "variant",
+        Ty::Maybe(_) => "maybe",
+        Ty::H => "fd",
+        Ty::S | Ty::O | Ty::G => "string-like",
+        _ => "fixed",
+    }
+}
+
+fn has_repeated_fd(v: &RV) -> bool {
+    fn collect(v: &RV, out: &mut Vec<u32>) {
+        match v {
+            RV::H(i) => out.push(*i),
+            RV::V(b) => collect(&b.1, out),
+            RV::Array(_, xs) | RV::Struct(xs) => xs.iter().for_each(|x| collect(x, out)),
+            RV::Dict(_, _, xs) => xs.iter().for_each(|(k, v)| {
+                collect(k, out);
+                collect(v, out)
+            }),
+            RV::Maybe(_, Some(x)) => collect(x, out),
+            _ => {}
+        }
+    }
+    let mut v0 = vec![];
+    collect(v, &mut v0);
+    let n = v0.len();
+    v0.sort();
+    v0.dedup();
+    v0.len() != n
+}
+
+struct Case<'a> {
+    ty: &'a Ty,
+    vidx: usize,
+    be: bool,
+    off: usize,
+}
+
+impl Case<'_> {
+    fn replay(&self, route: &str, typed: Option<&str>) -> serde_json::Value {
+        json!({"sig": self.ty.sig(), "value_index": self.vidx, "big_endian": self.be, "offset": self.off,
+               "route": route, "typed": typed, "cap": CAP})
+    }
+}
+
+/// Compare one real encoding with the reference. `refv` is the value the reference encodes.
+#[allow(clippy::too_many_arguments)]
+fn judge(
+    acc: &mut Acc,
+    case: &Case<'_>,
+    route: &str,
+    typed: Option<&str>,
+    refv: &RV,
+    real: &Result<(Vec<u8>, Vec<u64>), String>,
+    size: &Result<(usize, Option<u32>), String>,
+    table_inodes: &[u64],
+) {
+    acc.evals += 1;
+    let what = format!(
+        "{} value {} ({}) {} offset {} route {}{}",
+        refv.ty().sig(),
+        refv.show(),
+        case.ty.sig(),
+        if case.be { "BE" } else { "LE" },
+        case.off,
+        route,
+        typed.map(|t| format!(" as {t}")).unwrap_or_default()
+    );
+    let v = |clause: &str, detail: String| {
+        Violation::new(clause, detail, case.replay(route, typed))
+            .feat("route", route)
+            .feat("kind", kind(&refv.ty()))
+    };
+    let (bytes, attached) = match real {
+        Ok(x) => x,
+        Err(e) => {
+            acc.outcome(&format!("{route}:encode-error"));
+            acc.violation(
+                v("encode-fails", format!("{what}: the real encoder failed on a well-typed value: {e}"))
+                    .feat("error", zvx::err_class(e)),
+            );
+            return;
+        }
+    };
+    // fd index policy: the wire value of an `h` is an index into the attached fds; a repeated fd
+    // may share one attachment or get one each. Accept either, whichever the implementation chose.
+    let nodedup = refdbus::encode_with(refv, case.be, case.off, false);
+    let dedup = refdbus::encode_with(refv, case.be, case.off, true);
+    let reference = if attached.len() == dedup.fds.len() && dedup.fds.len() != nodedup.fds.len() {
+        &dedup
+    } else {
+        &nodedup
+    };
+    if *bytes == reference.buf {
+        acc.outcome(&format!("{route}:equal"));
+    } else {
+        acc.outcome(&format!("{route}:differs"));
+        let first = bytes
+            .iter()
+            .zip(&reference.buf)
+            .position(|(a, b)| a != b)
+            .unwrap_or(bytes.len().min(reference.buf.len()));
+        acc.violation(
+            v(
+                "bytes-differ",
+                format!(
+                    "{what}: real {} reference {} (first difference at byte {first})",
+                    hex(bytes),
+                    hex(&reference.buf)
+                ),
+            )
+            .feat("diff", if bytes.len() != reference.buf.len() { "length" } else { "content" }),
+        );
+    }
+    // attached fds are the files the value named
+    if !reference.fds.is_empty() || !attached.is_empty() {
+        let expect: Vec<u64> = reference.fds.iter().map(|i| table_inodes[*i as usize]).collect();
+        if *attached != expect {
+            acc.violation(v(
+                "fds-attached",
+                format!("{what}: attached fds (inodes {attached:?}) are not the value's fds in wire-index order ({expect:?})"),
+            ));
+        }
+    }
+    match size {
+        Ok((n, nfds)) => {
+            if *n != bytes.len() {
+                acc.violation(
+                    v("size-differs", format!("{what}: serialized_size says {n}, {} bytes were written", bytes.len())),
+                );
+            }
+            if let Some(nfds) = nfds {
+                if *nfds as usize != attached.len() {
+                    acc.outcome("fd-count:differs");
+                    acc.violation(
+                        v(
+                            "fd-count",
+                            format!(
+                                "{what}: serialized_size reports {nfds} fds, to_bytes attached {}",
+                                attached.len()
+                            ),
+                        )
+                        .feat("repeated_fd", has_repeated_fd(refv)),
+                    );
+                } else if *nfds > 0 {
+                    acc.outcome("fd-count:equal");
+                }
+            }
+        }
+        Err(e) => {
+            acc.violation(
+                v("size-fails", format!("{what}: serialized_size failed: {e}")).feat("error", zvx::err_class(e)),
+            );
+        }
+    }
+}
+
+fn run_value(
+    acc: &mut Acc,
+    ty: &Ty,
+    vidx: usize,
+    rv: &RV,
+    endians: &[bool],
+    offsets: &[usize],
+    bank: &std::collections::BTreeMap<String, Vec<Box<dyn zvx::TypedOps>>>,
+    only_route: Option<&str>,
+    verbose: bool,
+) {
+    zvx::with_fds(|fds| {
+        let table_inodes: Vec<u64> = fds.fds.iter().map(rv::FdTable::inode).collect();
+        let norm = match zvx::normalize(rv, fds) {
+            Ok(n) => n,
+            Err(e) => vcommon::machinery_failure(&format!("C01: cannot build {}: {e}", rv.show())),
+        };
+        let value = rv::to_value(&norm, fds).expect("harness: to_value");
+        let as_variant = RV::V(Box::new((norm.ty(), norm.clone())));
+        let typed = bank.get(&ty.sig());
+        for &be in endians {
+            for &off in offsets {
+                let case = Case { ty, vidx, be, off };
+                let c = zvx::ctxt(false, be, off);
+                let pack = |e: Result<zvx::Encoded, String>| e.map(|e| (e.bytes().to_vec(), e.fd_inodes()));
+                let szp = |s: Result<(usize, u32), String>| s.map(|(n, f)| (n, Some(f)));
+                let want = |r: &str| only_route.map(|o| o == r).unwrap_or(true);
+                if want("dyn") {
+                    let real = pack(zvx::enc_dyn(&value, c));
+                    let size = szp(zvx::size_dyn(&value, c));
+                    if verbose {
+                        println!("route dyn: real {:?} size {:?}", real.as_ref().map(|(b, f)| (hex(b), f.clone())), size);
+                    }
+                    judge(acc, &case, "dyn", None, &norm, &real, &size, &table_inodes);
+                }
+                if want("variant") {
+                    let real = pack(zvx::enc_variant(&value, c));
+                    let size = szp(zvx::size_variant(&value, c));
+                    if verbose {
+                        println!("route variant: real {:?} size {:?}", real.as_ref().map(|(b, f)| (hex(b), f.clone())), size);
+                    }
+                    judge(acc, &case, "variant", None, &as_variant, &real, &size, &table_inodes);
+                }
+                if want("serde") {
+                    // the harness's own entry order for dicts: a generic map type decides its order
+                    let real = pack(zvx::enc_serde(rv, fds, c));
+                    let size = szp(zvx::size_serde(rv, fds, c));
+                    if verbose {
+                        println!("route serde: real {:?} size {:?}", real.as_ref().map(|(b, f)| (hex(b), f.clone())), size);
+                    }
+                    judge(acc, &case, "serde", None, rv, &real, &size, &table_inodes);
+                }
+                if want("typed") {
+                    for ops in typed.into_iter().flatten().filter(|o| o.dbus_ok()) {
+                        if let Some(t) = ops.encode(rv, c) {
+                            let real = t.bytes.map(|b| (b, vec![]));
+                            let size = t.size.map(|n| (n, None));
+                            if verbose {
+                                println!("route typed {}: real {:?} size {:?}", ops.name(), real.as_ref().map(|(b, _)| hex(b)), size);
+                            }
+                            judge(acc, &case, "typed", Some(ops.name()), &t.as_rv, &real, &size, &table_inodes);
+                        }
+                    }
+                }
+                // non-trivial: the encoding involves a container or alignment padding
+                let lead_pad = off % ty.align() != 0;
+                if ty.has_container() || lead_pad {
+                    acc.nontrivial.insert(vcommon::hash64(&(ty.sig(), vidx, be, off)));
+                }
+                if lead_pad {
+                    acc.outcome("case:leading-padding");
+                } else {
+                    acc.outcome("case:aligned-start");
+                }
+            }
+        }
+        if vidx == 1 && ty.nodes() >= 2 {
+            acc.sample(json!({"sig": ty.sig(), "value": norm.show(),
+                "reference_le_offset_1": hex(&refdbus::encode(&norm, false, 1).buf)}));
+        }
+    })
+}
+
+fn replay(path: &str) -> i32 {
+    let art = vcommon::load_replay(path);
+    let r = &art["replay"];
+    let (Some(sig), Some(vidx), Some(be), Some(off)) = (
+        r["sig"].as_str(),
+        r["value_index"].as_u64(),
+        r["big_endian"].as_bool(),
+        r["offset"].as_u64(),
+    ) else {
+        vcommon::machinery_failure("C01 replay: malformed artefact");
+    };
+    let ty = rv::parse_ty(sig).unwrap_or_else(|| vcommon::machinery_failure("C01 replay: bad signature"));
+    let cap = r["cap"].as_u64().unwrap_or(CAP as u64) as usize;
+    let mut capped = false;
+    let vals = rv::values(&ty, &rv::Domain::standard(cap), &mut capped);
+    let Some(rvv) = vals.get(vidx as usize) else {
+        vcommon::machinery_failure("C01 replay: value index out of range");
+    };
+    println!("C01 replay: type {sig} value {} {} offset {off}", rvv.show(), if be { "BE" } else { "LE" });
+    println!("reference (as given): {}", hex(&refdbus::encode(rvv, be, off as usize).buf));
+    let bank = zvx::bank_by_sig();
+    let mut acc = Acc::default();
+    run_value(&mut acc, &ty, vidx as usize, rvv, &[be], &[off as usize], &bank, r["route"].as_str(), true);
+    if acc.violations.is_empty() {
+        println!("observation: no clause violated on this case");
+        0
+    } else {
+        for v in &acc.violations {
+            println!("observation: clause={} {}", v.clause, v.detail);
+        }
+        1
+    }
+}
+
+pub fn main(args: &Args) -> i32 {
+    if let Some(p) = &args.replay {
+        return replay(p);
+    }
+    let report = Report::new("C01", args.tier, args.seed, "exploration");
+    let n = args.tier.pick(3, 4);
+    let offsets: Vec<usize> = (0..args.tier.pick(8, 16)).collect();
+    let corpus = zvx::corpus(n, false, CAP);
+    let bank = zvx::bank_by_sig();
+    report.set("types", json!(corpus.items.len()));
+    report.set("values", json!(corpus.items.iter().map(|(_, v)| v.len()).sum::<usize>()));
+    report.set("max_signature_nodes", json!(n));
+    report.set("offsets", json!(offsets.len()));
+    report.set(
+        "typed_bank_shapes_in_space",
+        json!(corpus
+            .items
+            .iter()
+            .filter(|(t, _)| bank.contains_key(&t.sig()))
+            .count()),
+    );
+    if corpus.capped_types > 0 {
+        report.cap(format!(
+            "value lists of {} of {} types were reduced (per-type cap {CAP}: base-choice over struct fields, first/last for variant payloads)",
+            corpus.capped_types,
+            corpus.items.len()
+        ));
+    }
+    // the bank's declared signatures must be what the harness thinks they are (harness sanity)
+    for ops in zvx::bank() {
+        if ops.declared_sig() != ops.ty().sig() {
+            vcommon::machinery_failure(&format!(
+                "typed bank: {} declares {} but the harness maps it to {}",
+                ops.name(),
+                ops.declared_sig(),
+                ops.ty().sig()
+            ));
+        }
+    }
+    let items = &corpus.items;
+    vcommon::par_for(items.len(), 1, |i| {
+        let (ty, vals) = &items[i];
+        let mut acc = Acc::default();
+        for (vidx, rvv) in vals.iter().enumerate() {
+            run_value(&mut acc, ty, vidx, rvv, &[false, true], &offsets, &bank, None, false);
+        }
+        acc.flush(&report);
+    });
+    report.assume("the reference marshaller refdbus::encode is the D-Bus wire format (written from the specification; audited against libdbus separately)");
+    report.assume("a repeated fd may share one attachment or use one per occurrence; both index policies are accepted");
+    report.assume("for zvariant::Dict the entry order is the one the Dict holds after construction; for the serde/typed routes the order of the map that was serialized");
+    report.finish(
+        "one evaluation = (type ≤ N nodes, value from rv::values, endian, start offset, encode route); non-trivial = the type has a container or the start offset forces leading padding, counted per distinct (type, value, endian, offset)",
+        true,
+    )
 }
